@@ -646,7 +646,9 @@ func c11Forced(r *Run, which string) error {
 	}
 	ctx1, cancel1 := context.WithCancel(context.Background())
 	defer cancel1()
-	loadEv := func(c int) string { return fmt.Sprintf("ELoad %s %s", sim.CoqN(c), sim.CoqListN(g.nums(hashesOf(heads)))) }
+	loadEv := func(c int) string {
+		return fmt.Sprintf("ELoad %s %s", sim.CoqN(c), sim.CoqListN(g.nums(hashesOf(heads))))
+	}
 	cancels, failed := 0, 0
 	switch which {
 	case "cancel-while-waiting":
